@@ -137,6 +137,32 @@ def check_cases(ctx, cases):
                     d2 = Directory.from_disk(path=root, progress_callback=seen_entries.append)
                 if d2.hash != d.hash:
                     ctx.fail(case, "root id depends on the listing order or on trailing slashes / relative spelling", "order-or-spelling-dependent")
+                # the tree changes and is read again by the same process: a regular file is rewritten in
+                # place (same length, same inode, modification time put back) — the second read gives
+                # the id of what is on disk now, not of what was there before
+                regs = [(p, n) for p, n in fs.walk(spec) if n["t"] == "file" and n["size"] > 0]
+                if regs and ci % 2 == 0:
+                    p_, n_ = regs[case["listing_seed"] % len(regs)]
+                    fp = os.path.join(root, p_)
+                    st = os.lstat(fp)
+                    n_["flip"] = True
+                    try:
+                        os.chmod(fp, st.st_mode | 0o200)
+                        with open(fp, "r+b") as fh:
+                            fh.write(fs.file_bytes(n_))
+                        os.chmod(fp, stat.S_IMODE(st.st_mode))
+                        os.utime(fp, ns=(st.st_atime_ns, st.st_mtime_ns))
+                        with ctx.time_limit(60):
+                            d5 = Directory.from_disk(path=spelled)
+                        want5 = fs.expected_ids(spec)[b""][1]
+                        ctx.count("rescan-after-rewrite")
+                        if d5.hash != want5:
+                            ctx.fail(case, "after a file was rewritten in place (same size, same modification time) a second read in the same process does not give the id of the tree now on disk", "rescan-stale", {"path": hx(p_), "impl": d5.hash.hex(), "want": want5.hex(), "first_read": d.hash.hex()})
+                    finally:
+                        n_.pop("flip", None)
+                        with open(fp, "r+b") as fh:
+                            fh.write(fs.file_bytes(n_))
+                        os.utime(fp, ns=(st.st_atime_ns, st.st_mtime_ns))
                 # command line
                 runner = CliRunner()
                 arg = os.fsdecode(spelled)
